@@ -323,10 +323,15 @@ Section Run.
 Variable p : program.
 (** node whose executor panics when invoked (C05), if any *)
 Variable panic_at : option node.
+(** the order in which the parallel tasks of one request run: the repairs of the transitive
+    firewall callees of a root, and the backward projections of a changed firewall (the real
+    engine iterates hash sets; the order may depend on anything, so it gets the state) *)
+Variable tfc_order : state -> node -> list node -> list node.
+Variable bp_order : state -> node -> list node -> list node.
 
 Definition body (n : node) : option expr := alookup p n.
 
-Fixpoint query_for (fuel : nat) (stk : list node) (c : caller) (fr : option frame) (n : node) (s : state)
+Fixpoint query_for_o (fuel : nat) (stk : list node) (c : caller) (fr : option frame) (n : node) (s : state)
   {struct fuel} : res qres :=
   match fuel with
   | O => OutOfFuel
@@ -375,8 +380,8 @@ Fixpoint query_for (fuel : nat) (stk : list node) (c : caller) (fr : option fram
               (fix go (ts : list node) (s : state) : res state :=
                  match ts with
                  | [] => Ok s
-                 | t :: r => let* (_, _, _, s') := query_for f stk CRepairFirewall None t s in go r s'
-                 end) (i_tfc i) s
+                 | t :: r => let* (_, _, _, s') := query_for_o f stk CRepairFirewall None t s in go r s'
+                 end) (tfc_order s n (i_tfc i)) s
           | _, _, _ => Ok s
           end in
         (* get_write_guard: double check, then process_query, then retry the fast path *)
@@ -386,7 +391,7 @@ Fixpoint query_for (fuel : nat) (stk : list node) (c : caller) (fr : option fram
               match get_info s1 n with
               | Some i =>
                   if (match i_pending i with Some t => (t =? s_ts s1)%N | None => false end)
-                  then let* s' := backward f stk n s1 in Ok ([], s')
+                  then let* s' := backward_o f stk n s1 in Ok ([], s')
                   else Ok ([], s1)
               | None => Ok ([], s1)
               end
@@ -394,8 +399,8 @@ Fixpoint query_for (fuel : nat) (stk : list node) (c : caller) (fr : option fram
               match get_info s1 n with
               | Some i =>
                   if (i_verified i =? s_ts s1)%N then Ok ([], s1)
-                  else repair f stk c n s1
-              | None => execute f stk c n false empty_frame s1
+                  else repair_o f stk c n s1
+              | None => execute_o f stk c n false empty_frame s1
               end
           end in
         (* retry: one more round of the loop, now expected to hit *)
@@ -404,7 +409,7 @@ Fixpoint query_for (fuel : nat) (stk : list node) (c : caller) (fr : option fram
             let fr3 := frame_mark_if fr2 (caller_node c) marks in
             Ok (if frame_in_scc fr3 then QCyclic else QValue v, fr3, marks, s2)
         | (FSlow _, _) =>
-            let* (o, fr2, m2, s3) := query_for f stk c fr1 n s2 in
+            let* (o, fr2, m2, s3) := query_for_o f stk c fr1 n s2 in
             Ok (o, frame_mark_if fr2 (caller_node c) marks, marks ++ m2, s3)
         end
     end
@@ -412,7 +417,7 @@ Fixpoint query_for (fuel : nat) (stk : list node) (c : caller) (fr : option fram
 
 (** execute_query + computing_lock_to_computed; [fr0] is the computing entry (fresh, or the
     one used during repair after clear_dependencies); returns the scc marks it received *)
-with execute (fuel : nat) (stk : list node) (c : caller) (n : node) (recompute : bool) (fr0 : frame) (s : state)
+with execute_o (fuel : nat) (stk : list node) (c : caller) (n : node) (recompute : bool) (fr0 : frame) (s : state)
   {struct fuel} : res (list node * state) :=
   match fuel with
   | O => OutOfFuel
@@ -429,7 +434,7 @@ with execute (fuel : nat) (stk : list node) (c : caller) (n : node) (recompute :
       | _ =>
           match body n with
           | None => Panic 4
-          | Some e => eval f (n :: stk) me e fr0 s0
+          | Some e => eval_o f (n :: stk) me e fr0 s0
           end
       end in
     let fr2 := if nmem n marks then fr_mark_scc fr1 else fr1 in
@@ -452,24 +457,24 @@ with execute (fuel : nat) (stk : list node) (c : caller) (n : node) (recompute :
   end
 
 (** the executor: evaluation of the node's expression *)
-with eval (fuel : nat) (stk : list node) (me : caller) (e : expr) (fr : frame) (s : state)
+with eval_o (fuel : nat) (stk : list node) (me : caller) (e : expr) (fr : frame) (s : state)
   {struct fuel} : res (eout * frame * list node * state) :=
   match fuel with
   | O => OutOfFuel
   | S f =>
     let read (n : node) (fr : frame) (s : state) : res (eout * frame * list node * state) :=
-      let* (o, fr', marks, s') := query_for f stk me (Some fr) n s in
+      let* (o, fr', marks, s') := query_for_o f stk me (Some fr) n s in
       let fr'' := match fr' with Some x => x | None => fr end in
       match o with
       | QValue (Some z) => Ok (EVal z, fr'', marks, s')
       | _ => Ok (EUnwind, fr'', marks, s')
       end in
     let bin (a b : expr) (op : Z -> Z -> Z) :=
-      let* (x, fr1, m1, s1) := eval f stk me a fr s in
+      let* (x, fr1, m1, s1) := eval_o f stk me a fr s in
       match x with
       | EUnwind => Ok (EUnwind, fr1, m1, s1)
       | EVal xv =>
-          let* (y, fr2, m2, s2) := eval f stk me b fr1 s1 in
+          let* (y, fr2, m2, s2) := eval_o f stk me b fr1 s1 in
           match y with
           | EUnwind => Ok (EUnwind, fr2, m1 ++ m2, s2)
           | EVal yv => Ok (EVal (op xv yv), fr2, m1 ++ m2, s2)
@@ -482,14 +487,14 @@ with eval (fuel : nat) (stk : list node) (me : caller) (e : expr) (fr : frame) (
     | EMul a b => bin a b Z.mul
     | ELt a b => bin a b (fun x y => if x <? y then 1 else 0)
     | EMod a m =>
-        let* (x, fr1, m1, s1) := eval f stk me a fr s in
+        let* (x, fr1, m1, s1) := eval_o f stk me a fr s in
         match x with EUnwind => Ok (EUnwind, fr1, m1, s1) | EVal xv => Ok (EVal (xv mod m), fr1, m1, s1) end
     | EIf c a b =>
-        let* (x, fr1, m1, s1) := eval f stk me c fr s in
+        let* (x, fr1, m1, s1) := eval_o f stk me c fr s in
         match x with
         | EUnwind => Ok (EUnwind, fr1, m1, s1)
         | EVal xv =>
-            let* (y, fr2, m2, s2) := eval f stk me (if xv =? 0 then b else a) fr1 s1 in
+            let* (y, fr2, m2, s2) := eval_o f stk me (if xv =? 0 then b else a) fr1 s1 in
             Ok (y, fr2, m1 ++ m2, s2)
         end
     | EGroup ns =>
@@ -510,7 +515,7 @@ with eval (fuel : nat) (stk : list node) (me : caller) (e : expr) (fr : frame) (
   end
 
 (** repair_query: should_recompute_query + recompute_decision_based_on_forward_edges *)
-with repair (fuel : nat) (stk : list node) (c : caller) (n : node) (s : state)
+with repair_o (fuel : nat) (stk : list node) (c : caller) (n : node) (s : state)
   {struct fuel} : res (list node * state) :=
   match fuel with
   | O => OutOfFuel
@@ -547,7 +552,7 @@ with repair (fuel : nat) (stk : list node) (c : caller) (n : node) (s : state)
                    let* (fr1, m1, s1) :=
                      if kind_eqb (nkind cal) KInput then Ok (fr, [], s)
                      else
-                       let* (_, fr', m', s') := query_for f (n :: stk) (CQuery n false pedantic_cal []) (Some fr) cal s in
+                       let* (_, fr', m', s') := query_for_o f (n :: stk) (CQuery n false pedantic_cal []) (Some fr) cal s in
                        Ok (match fr' with Some x => x | None => fr end, m', s') in
                    match get_info s1 cal, alookup (i_obs i) cal with
                    | Some ci, Some (ov, otfc) =>
@@ -561,7 +566,7 @@ with repair (fuel : nat) (stk : list node) (c : caller) (n : node) (s : state)
         let fr2 := if nmem n marks then fr_mark_scc fr1 else fr1 in
         match d with
         | DRecompute =>
-            let* (m2, s2) := execute f stk c n true (fr_clear fr2) s1 in
+            let* (m2, s2) := execute_o f stk c n true (fr_clear fr2) s1 in
             Ok (marks ++ m2, s2)
         | DClean false cleaned => Ok (marks, clean_query s1 n cleaned None)
         | DClean true cleaned =>
@@ -578,7 +583,7 @@ with repair (fuel : nat) (stk : list node) (c : caller) (n : node) (s : state)
   end
 
 (** invoke_backward_projections + done_backward_projection *)
-with backward (fuel : nat) (stk : list node) (n : node) (s : state) {struct fuel} : res state :=
+with backward_o (fuel : nat) (stk : list node) (n : node) (s : state) {struct fuel} : res state :=
   match fuel with
   | O => OutOfFuel
   | S f =>
@@ -587,8 +592,8 @@ with backward (fuel : nat) (stk : list node) (n : node) (s : state) {struct fuel
       (fix go (ps : list node) (s : state) : res state :=
          match ps with
          | [] => Ok s
-         | q :: r => let* (_, _, _, s') := query_for f stk CBPP None q s in go r s'
-         end) projs s in
+         | q :: r => let* (_, _, _, s') := query_for_o f stk CBPP None q s in go r s'
+         end) (bp_order s n projs) s in
     match get_info s1 n with
     | Some i => Ok (put_info s1 n (mkInfo (i_verified i) (i_value i) (i_tfc i) (i_fwd i) (i_obs i) None))
     | None => Ok s1
@@ -596,6 +601,14 @@ with backward (fuel : nat) (stk : list node) (n : node) (s : state) {struct fuel
   end.
 
 End Run.
+
+(** the schedule in list order *)
+Definition ord_id : state -> node -> list node -> list node := fun _ _ l => l.
+Definition query_for (p : program) (pa : option node) := query_for_o p pa ord_id ord_id.
+Definition execute (p : program) (pa : option node) := execute_o p pa ord_id ord_id.
+Definition eval (p : program) (pa : option node) := eval_o p pa ord_id ord_id.
+Definition repair (p : program) (pa : option node) := repair_o p pa ord_id ord_id.
+Definition backward (p : program) (pa : option node) := backward_o p pa ord_id ord_id.
 
 (** * histories *)
 Inductive sres := SFresh | SUpdated | SUnchanged.
@@ -612,14 +625,15 @@ Definition fuel0 : nat := 400.
 Definition restart (s : state) : state := set_log (set_stat (set_visited s []) 0%N) [].
 
 (** one operation of a history on the model *)
-Definition step (p : program) (s : state) (o : op) : state * opres :=
+Definition step_o (tfc_order bp_order : state -> node -> list node -> list node)
+  (p : program) (s : state) (o : op) : state * opres :=
   let s := set_log s [] in
   match o with
   | OSetWorld i v =>
       (set_world s ((i, v) :: filter (fun '(k, _) => negb (k =? i)%N) (s_world s)), mkRes RUnit [] None)
   | ORestart => (restart s, mkRes RUnit [] None)
   | OQuery n =>
-      match query_for p None fuel0 [] CUser None n s with
+      match query_for_o p None tfc_order bp_order fuel0 [] CUser None n s with
       | Ok (QValue (Some z), _, _, s') => (s', mkRes (RValue z) (rev (s_log s')) (Some (s_stat s')))
       | Ok (_, _, _, s') => (s', mkRes RPanic (rev (s_log s')) (Some (s_stat s')))
       | Panic _ => (s, mkRes RPanic [] None)
@@ -655,8 +669,12 @@ Definition step (p : program) (s : state) (o : op) : state * opres :=
       end
   end.
 
-Fixpoint run_history (p : program) (s : state) (ops : list op) : list opres :=
+Definition step : program -> state -> op -> state * opres := step_o ord_id ord_id.
+
+Fixpoint run_history_o (tfc_order bp_order : state -> node -> list node -> list node)
+  (p : program) (s : state) (ops : list op) : list opres :=
   match ops with
   | [] => []
-  | o :: r => let '(s', x) := step p s o in x :: run_history p s' r
+  | o :: r => let '(s', x) := step_o tfc_order bp_order p s o in x :: run_history_o tfc_order bp_order p s' r
   end.
+Definition run_history : program -> state -> list op -> list opres := run_history_o ord_id ord_id.
